@@ -9,8 +9,12 @@ NA = {
     "C03": "round-trip equality over generated dataclass shapes and agreement of the msgpack/Arrow codecs are value-level; no sound static clause in reach (DESIGN §7)",
 }
 checks, na = [], []
+CLAIMED = {l.strip() for l in open(os.path.join(V, "claimed.txt")) if l.strip()}
 for p in props:
     pid = p["id"]
+    if pid not in CLAIMED:
+        na.append({"property_id": pid, "reason": NA.get(pid, "static checker for this property is not built yet (work in progress; see DESIGN §5 for the planned clauses)")})
+        continue
     try:
         mod = importlib.import_module(f"sa.props.{pid.lower()}")
     except ModuleNotFoundError:
